@@ -14,6 +14,7 @@ type Cell struct {
 	V      Value
 	ID     int
 	Shared *SharedInfo // event mode: non-nil for published / shadow cells (setup cells are named by ID)
+	Shadow bool        // event mode: stand-in for an object allocated by another thread
 	Origin string      // event mode: allocation-site name of a thread-allocated object
 	Type   types.Type  // static type of an allocated object (for shadows)
 }
